@@ -1,11 +1,12 @@
 // Switches of c06_filter for repairs that are proposed but not yet in the tree (spec/proposed_fixes/C06-*.patch).
-// Set to 1 once the corresponding "fix:" commits are in /repo: the members then compile and are exercised.
+// Coordinator decision: the patches are NOT applied (members without behaviour, DESIGN.md 9.5); the switches stay 0 and the members are
+// listed as exclusions in spec.assumptions. The dormant code was validated once against a scratch tree with the patches applied.
 #pragma once
 #ifndef C06_HAVE_COMBINATOR_FIXES
-#define C06_HAVE_COMBINATOR_FIXES 1   // FilterChain ctor(>=3 links)/clone(other), PowerFilter::clone(other), FilterSequence::clone(other)
+#define C06_HAVE_COMBINATOR_FIXES 0   // FilterChain ctor(>=3 links)/clone(other), PowerFilter::clone(other), FilterSequence::clone(other)
 #endif
 #ifndef C06_HAVE_MEANB_FIX_FLAG
-#define C06_HAVE_MEANB_FIX_FLAG 1     // MeanFilterBlocked::convert / clear
+#define C06_HAVE_MEANB_FIX_FLAG 0     // MeanFilterBlocked::convert / clear
 #endif
 #if C06_HAVE_MEANB_FIX_FLAG
 #define C06_HAVE_MEANB_FIX 1
